@@ -41,6 +41,25 @@ fn registry() -> &'static Mutex<Vec<Weak<Shared>>> {
     R.get_or_init(|| Mutex::new(Vec::new()))
 }
 
+/// Earliest deadline strictly after `now_ns` of any live virtual timer (overdue timeouts that
+/// nobody polled are not something to wait for).
+pub(crate) fn next_deadline_after_ns(now_ns: u64) -> Option<u64> {
+    let mut r = registry().lock().unwrap_or_else(|e| e.into_inner());
+    r.retain(|w| w.strong_count() > 0);
+    r.iter()
+        .filter_map(|w| w.upgrade())
+        .filter_map(|s| {
+            s.pending
+                .lock()
+                .unwrap_or_else(|e| e.into_inner())
+                .iter()
+                .map(|(d, _)| *d)
+                .filter(|d| *d > now_ns)
+                .min()
+        })
+        .min()
+}
+
 pub(crate) fn next_deadline_ns() -> Option<u64> {
     let mut r = registry().lock().unwrap_or_else(|e| e.into_inner());
     r.retain(|w| w.strong_count() > 0);
